@@ -7,6 +7,7 @@ import (
 	"io"
 	"math/big"
 	mrand "math/rand"
+	"strings"
 
 	"github.com/xelaj/mtproto/telegram"
 	"github.com/xelaj/mtproto/zverif/ref/mtp"
@@ -20,8 +21,8 @@ var c18Passwords = []string{"password", "p", "пароль", "🔐 pass phrase w
 
 // scriptedReader replaces crypto/rand.Reader: the next 256-byte draw returns `next` if set.
 type scriptedReader struct {
-	inner io.Reader
-	next  []byte
+	inner  io.Reader
+	next   []byte
 	served int
 }
 
@@ -44,6 +45,44 @@ func c18(c *wk.Ctx) {
 			r := c.Rand(idx)
 			c.Begin(idx, fmt.Sprintf("srp case %d", k))
 			c18case(c, idx, r, k, p)
+		}
+		idx++
+	}
+	// several logins computed at once (different accounts in one process), each verified by its own server
+	for k := 0; k < c.Pick(2, 24); k++ {
+		if c.Mine(idx) {
+			c.Begin(idx, fmt.Sprintf("srp concurrent %d", k))
+			res := concurrently(8, int64(idx), func(g int, r *mrand.Rand) string {
+				for it := 0; it < 3; it++ {
+					pw := randWord(r) + fmt.Sprint(g)
+					s1, s2 := rbytes(r, 8+r.Intn(24)), rbytes(r, 8+r.Intn(24))
+					gg := []int{2, 3, 4, 5, 6, 7}[r.Intn(6)]
+					srv := srpsrv.NewServer(p, gg, s1, s2, []byte(pw))
+					srv.SetB(new(big.Int).SetBytes(rbytes(r, 256)))
+					ap := &telegram.AccountPassword{HasPassword: true, SRPB: srpsrv.Pad(srv.B.Bytes()), SRPID: int64(g),
+						CurrentAlgo: &telegram.PasswordKdfAlgoSHA256SHA256PBKDF2HMACSHA512iter100000SHA256ModPow{Salt1: s1, Salt2: s2, G: int32(gg), P: p.Bytes()}}
+					res, err := telegram.GetInputCheckPassword(pw, ap)
+					if err != nil {
+						return "error: " + err.Error()
+					}
+					o, ok := res.(*telegram.InputCheckPasswordSRPObj)
+					if !ok || o.SRPID != int64(g) || srv.Check(o.A, o.M1) != nil {
+						return fmt.Sprintf("right-password-rejected: goroutine %d login %d (password %q, g=%d): the reference server rejects the answer computed while 7 other logins were being computed", g, it, pw, gg)
+					}
+					wrong, err := telegram.GetInputCheckPassword(pw+"x", ap)
+					if w, ok := wrong.(*telegram.InputCheckPasswordSRPObj); err == nil && ok && srv.Check(w.A, w.M1) == nil {
+						return fmt.Sprintf("wrong-password-accepted: goroutine %d login %d", g, it)
+					}
+				}
+				return ""
+			})
+			c.Count("evaluations", 8*3*2)
+			for _, m := range res {
+				if m != "" {
+					c.Viol("C18", idx, "concurrent/"+strings.SplitN(m, ":", 2)[0], m, nil)
+				}
+			}
+			c.Distinct("concurrent", k)
 		}
 		idx++
 	}
